@@ -667,3 +667,17 @@ B('c20_resource_renamed', ['C20'], 'R20.b', (FL, "    resources = {'tb_str': tra
 B('c20_swapped_type_msg', ['C20'], 'R20.d', (FL, '        return cls(exc_type, exc_msg, frames)', '        return cls(exc_msg, exc_type, frames)'))
 T('c20_twin_except_exception', ['C20'], (FL, '        parsed_error = parsed_tb.to_dict()\n    except:\n', '        parsed_error = parsed_tb.to_dict()\n    except Exception:\n'))
 T('c20_twin_h_filter', ['C20'], (FL, '<pre>{tb_str}</pre>', '<pre>{tb_str|h}</pre>'))
+
+
+# ------------------------------------------------------------------ per-package variant files (vt/variants_<pkg>.py)
+# each defines more B(...) / T(...) entries with ``from .variants import *``-style access to the helpers above
+def _load_package_variant_files():
+    import importlib
+    import os
+    here = os.path.dirname(os.path.abspath(__file__))
+    for fn in sorted(os.listdir(here)):
+        if fn.startswith('variants_') and fn.endswith('.py'):
+            importlib.import_module('%s.%s' % (__package__, fn[:-3]))
+
+
+_load_package_variant_files()
